@@ -204,6 +204,7 @@ def rule_reduce_axis(ctx):
     dpos, name = ('item', gai, 0), ('item', gai, 1)
     ev = run(ctx, fi, bind={'keepdims': T.CONST_TRUE}, mode='join')
     okp, okn, okg = False, False, False
+    ok_order, n_rebuilt = False, 0
     for p in ret_paths(ev):
         for e in p.calls():
             c = e.a
@@ -224,6 +225,27 @@ def rule_reduce_axis(ctx):
                 else:
                     ctx.violated('R2', fi, e.node, 'func must run along the variable\'s own position of the dimension: item._get_axis_info(name)[0]', node=e.node)
                 # guard: the try around _get_axis_info failing -> variable kept
+        # the rebuilt variable lists its axes in the *variable's* dimension order (the values keep that order), not in the dataset's
+        for e in p.calls('DimArray'):
+            c = e.a
+            if not e.loops or not c[2] or c[2][0][0] != 'call' or c[2][0][1] != FUNC:
+                continue
+            axarg = c[2][1] if len(c[2]) > 1 else T.kw(c, 'axes')
+            item = c[2][0][2][0][1] if c[2][0][2] and c[2][0][2][0][0] == 'attr' else None
+            n_rebuilt += 1
+            if axarg is None or axarg[0] != 'comp' or len(axarg[3]) != 1 or item is None:
+                ctx.undecide('R2', 'reduce_axis: axes of the rebuilt variable are not a single comprehension: %s' % T.show(axarg)[:100] if axarg else 'missing')
+                continue
+            lid, src, conds = axarg[3][0]
+            own = src in (('attr', item, 'dims'), ('attr', item, 'axes'))
+            if not own:
+                ctx.violated('R2', fi, e.node, 'the axes of a rebuilt variable must follow the variable\'s own dimension order (iterate item.dims): the values keep '
+                             'that order, so listing the axes in the dataset\'s order (%s) mislabels every variable stored in another order (u(x,y) and v(y,x))'
+                             % T.show(src)[:60], node=e.node)
+            elif not T.contains(axarg[2], ('elem', src, lid)) or axarg[2] == ('elem', src, lid):
+                ctx.violated('R2', fi, e.node, 'each axis of a rebuilt variable must be the *new* axis looked up by the variable\'s dimension name', node=e.node)
+            else:
+                ok_order = True
         tf = [e for e in p.events if e.kind == 'tryfail']
         for e in p.events:
             if e.kind == 'store_sub' and e.loops and e.a[0] in ('call', 'mut', 'phi') and e.c[0] == 'sub' and e.c[1] == SELF:
@@ -231,6 +253,10 @@ def rule_reduce_axis(ctx):
                     okg = True
     if okp:
         ctx.holds('R2', 'reduce_axis: func(item.values, axis=item._get_axis_info(name)[0])')
+    if ok_order:
+        ctx.holds('R2', 'reduce_axis: rebuilt variables list their axes in their own dimension order')
+    elif not n_rebuilt:
+        ctx.undecide('R2', 'reduce_axis: the DimArray(func(item.values, ...), axes) construction was not found')
     if okg:
         ctx.holds('R2', 'reduce_axis: variables lacking the dimension are kept unchanged')
     else:
@@ -556,6 +582,12 @@ def check(ctx):
     from ..report import Renamed
     ctx.rule('R8', 'interpolation weights behind Dataset.interp_axis (shared with C18)', 1)
     c18.rule_weights(Renamed(ctx, {'*': 'R8'}))
+    # Dataset.take resolves the index once through the shared _get_indices and hands positions to every variable: its per-dimension bookkeeping
+    # (shared with C01) - state carried from one dimension to the next makes dataset and variable disagree as soon as their dimension orders differ
+    from . import c01 as _c01b
+    from ..report import Renamed as _RenB
+    ctx.rule('R9', '_get_indices per-dimension bookkeeping (shared with C01)', 4)
+    _c01b.rule_bookkeeping(_RenB(ctx, {'*': 'R9'}))
     ctx.not_decided += ['value equality with the per-variable result', 'Dataset.__eq__ / copy semantics']
     ctx.trusted += ['np.take(values, indices, axis=) semantics']
     return EXPLANATION
